@@ -142,7 +142,33 @@ def sweep_rep(tier, seed):
         yield dict(n=n, passes=passes, generator=gen)
 
 
-CHECKERS = {'pbcd': (check_pbcd, sweep_pbcd), 'bshuf': (check_bshuf, sweep_bshuf),
+def check_srbfd(inp):
+  """shuffle_repeat_batch_federated_data: reproducible for a fixed seed (0 included), every example once per pass."""
+  import itertools
+  from fedjax.core import federated_data as fdm, in_memory_federated_data as imfd
+  n_clients, seed = inp['clients'], inp['seed']
+  data = {b'c%02d' % i: {'x': np.arange(i * 100, i * 100 + (i % 3) + 2)} for i in range(n_clients)}
+  fd = imfd.InMemoryFederatedData(data)
+  total = sum(len(v['x']) for v in data.values())
+  runs = []
+  for _ in range(3):
+    it = fdm.shuffle_repeat_batch_federated_data(fd, batch_size=2, client_buffer_size=3, example_buffer_size=4, seed=seed)
+    runs.append([b['x'].tolist() for b in itertools.islice(it, total)])
+  if runs[0] != runs[1] or runs[0] != runs[2]:
+    return f'shuffle_repeat_batch_federated_data(seed={seed}): three runs with the same seed give different batch streams'
+  # (the example-level buffer spans passes of the client stream, so the stream is not pass-aligned: only membership is checked)
+  valid = {x for v in data.values() for x in v['x'].tolist()}
+  if any(x not in valid for b in runs[0] for x in b) or any(len(b) != 2 for b in runs[0]):
+    return f'shuffle_repeat_batch_federated_data(seed={seed}): a batch is not 2 examples of the dataset'
+
+
+def sweep_srbfd(tier, seed):
+  for sd in (0, 1, 7):
+    for nc in (1, 2, 5):
+      yield dict(clients=nc, seed=sd)
+
+
+CHECKERS = {'srbfd': (check_srbfd, sweep_srbfd), 'pbcd': (check_pbcd, sweep_pbcd), 'bshuf': (check_bshuf, sweep_bshuf),
             'bsbcd': (check_bsbcd, sweep_bsbcd), 'rep': (check_rep, sweep_rep)}
 
 if __name__ == '__main__':
